@@ -88,9 +88,66 @@ FIELD_WIDTH = {
 }
 
 
+_ENUMS = {}
+
+
+def typed_row(kind, spec_row):
+    """what KIND of value each argument holds (number / enum / location / string / switch / property set / AI
+    script), read from the declared types of the library's own model class for that type — so that the inputs
+    do not depend on what the translator made of the transcoder's source.  WHICH field holds the argument is
+    the specification's (`spec_row["args"]`)."""
+    import enum as _enum
+    import typing
+
+    from richchk.model.richchk.mrgn.rich_location import RichLocation
+    from richchk.model.richchk.str.rich_string import RichString
+    from richchk.model.richchk.swnm.rich_switch import RichSwitch
+    from richchk.model.richchk.trig.enums.ai_script import AiScript
+    from richchk.model.richchk.trig.trigger_action_id import TriggerActionId
+    from richchk.model.richchk.trig.trigger_condition_id import TriggerConditionId
+    from richchk.model.richchk.uprp.rich_cuwp_slot import RichCuwpSlot
+    from richchk.transcoder.richchk.transcoders.trig.rich_trigger_action_transcoder_factory import RichTriggerActionTranscoderFactory as AF
+    from richchk.transcoder.richchk.transcoders.trig.rich_trigger_condition_transcoder_factory import RichTriggerConditionTranscoderFactory as CF
+
+    try:
+        idenum = TriggerActionId if kind == "a" else TriggerConditionId
+        member = next(m for m in idenum if m.id == spec_row["id"])
+        tc = (AF.make_rich_trigger_action_transcoder if kind == "a" else CF.make_rich_trigger_condition_transcoder)(member)
+        model = next(b.__args__[0] for b in type(tc).__orig_bases__ if getattr(b, "__args__", None))
+        hints = typing.get_type_hints(model)
+        dec = []
+        for arg, field in spec_row["args"]:
+            t = hints[arg]
+            if typing.get_origin(t) is typing.Union:
+                t = next(x for x in typing.get_args(t) if x is not type(None))
+            if t is int:
+                c = "num"
+            elif t is str or (isinstance(t, type) and issubclass(t, RichString)):
+                c = "str"
+            elif isinstance(t, type) and issubclass(t, RichLocation):
+                c = "loc"
+            elif isinstance(t, type) and issubclass(t, RichSwitch):
+                c = "switch"
+            elif isinstance(t, type) and issubclass(t, RichCuwpSlot):
+                c = "cuwp"
+            elif isinstance(t, type) and issubclass(t, AiScript):
+                c = "ai"
+            elif isinstance(t, type) and issubclass(t, _enum.Enum):
+                _ENUMS[t.__name__] = t
+                c = "enum:" + t.__name__
+            else:
+                return None
+            dec.append({"arg": arg, "field": field, "codec": c})
+        return {"decode": dec}
+    except Exception:  # noqa: BLE001
+        return None
+
+
 def enum_class(name):
     import importlib
 
+    if name in _ENUMS:
+        return _ENUMS[name]
     gen = json.load(open(os.path.join(BUILD_DIR, "codecs.json")))
     for e in gen["enums"]:
         if e["enum"] == name:
@@ -230,18 +287,21 @@ def run(prop, tier, seed):
             out.disagreements.append({"op": "trigids " + kind, "model": sorted(grows), "real": reg})
         for srow in spec[skey]:
             row = grows.get(srow["id"])
+            trow = typed_row(kind, srow) or row
+            if typed_row(kind, srow) is None:
+                out.count("inputs-from-translator-row")
             for v in range(nvariants):
-                obs = probe(kind, row, srow, fields, dctx, ectx, out, rng, v)
+                obs = probe(kind, trow, srow, fields, dctx, ectx, out, rng, v)
                 if obs is not None and row is not None:
                     gmap = {d["arg"]: d["field"] for d in row["decode"]}
                     if obs != gmap:
                         out.disagreements.append({"op": "trigrow %s %d" % (kind, srow["id"]), "model": gmap, "real": obs})
             # boundary values of the plain-number arguments (0 and the field's maximum): decode then encode is exact
-            if row:
-                boundary_probe(kind, row, srow, fields, dctx, ectx, out)
+            if trow:
+                boundary_probe(kind, trow, srow, fields, dctx, ectx, out)
             # every enum member of every enum-typed argument
-            if row:
-                enum_sweep(kind, row, srow, fields, dctx, ectx, out, tier)
+            if trow:
+                enum_sweep(kind, trow, srow, fields, dctx, ectx, out, tier)
             lines.append("trigrow %s %d" % (kind, srow["id"]))
     # model side: the rows the theorems talk about are the rows the harness compared against
     try:
